@@ -3,6 +3,7 @@ package main
 // Go-coded models of external functions (trusted; every one used is listed in the evidence).
 
 import (
+	"strings"
 	"go/types"
 
 	"golang.org/x/tools/go/ssa"
@@ -643,4 +644,40 @@ func init() {
 		e.vc.Assume(True, Eq(Eq(IfTag(errT), IntLit(0)), ok2))
 		return Tuple{MkSlice(r, bv64zero, n, n), errT}, true
 	}
+}
+
+// ---------- gofork/encoding/asn1 (trusted codec): decoding returns an error or fills *val with an arbitrary
+// type-valid value; rest is a suffix of the input; a decoded RawValue has 2 <= len(FullBytes) <= len(input).
+
+func init() {
+	m := func(e *Exec, c *ssa.CallCommon, a []Val, in ssa.Instruction) (Val, bool) {
+		e.trust("gofork/encoding/asn1.Unmarshal*: error, or *val is an arbitrary type-valid value and rest a suffix of the input; RawValue.FullBytes has 2..len(input) bytes on success")
+		b := a[0].(*Term)
+		e.havocReach1(a[1], c.Args[1])
+		nac := e.vc.Fresh("ac", SInt)
+		e.vc.Assume(True, IntLe(e.st.ac, nac))
+		e.st.ac = nac
+		errT := e.havocTerm("err", c.Signature().Results().At(1).Type())
+		k := e.vc.Fresh("consumed", BV(64))
+		e.vc.Assume(True, And(SGe(k, bv64zero), SLe(k, SlLen(b))))
+		e.vc.Assume(True, Implies(Eq(IfTag(errT), IntLit(0)), SGe(k, BVLitI(2, 64))))
+		rest := MkSlice(SlRef(b), e.vc.Define("roff", BVAdd(SlOff(b), k)), BVSub(SlLen(b), k), BVSub(SlCap(b), k))
+		if mi, ok := c.Args[1].(*ssa.MakeInterface); ok {
+			if pt, ok := types.Unalias(mi.X.Type()).Underlying().(*types.Pointer); ok && strings.HasSuffix(typeKey(pt.Elem()), "asn1.RawValue") {
+				if p, ok := e.val(mi.X).(*Ptr); ok {
+					rv := e.toTerm(e.quietLoad(p), pt.Elem())
+					si := structInfo(pt.Elem())
+					for i, f := range si.Fields {
+						if f.Name == "FullBytes" {
+							fb := FieldSel(si, rv, i)
+							e.vc.Assume(True, Implies(Eq(IfTag(errT), IntLit(0)), And(SGe(SlLen(fb), BVLitI(2, 64)), SLe(SlLen(fb), SlLen(b)), Eq(SlLen(fb), k))))
+						}
+					}
+				}
+			}
+		}
+		return Tuple{rest, errT}, true
+	}
+	goModels["github.com/jcmturner/gofork/encoding/asn1.Unmarshal"] = m
+	goModels["github.com/jcmturner/gofork/encoding/asn1.UnmarshalWithParams"] = m
 }
